@@ -229,6 +229,12 @@ type fxItem = *dsmr.EmapChunkCertificate
 
 type fxChainIndex struct {
 	blocks map[ids.ID]validitywindow.ExecutionBlock[fxItem]
+	// lookups counts GetExecutionBlock calls since the harness last reset it; with
+	// maxLookups > 0 a walk that needs more lookups than that is cut off (error) and
+	// flagged: with a few dozen blocks in the index it can only be a cycle.
+	lookups    int
+	maxLookups int
+	cycled     bool
 }
 
 func newFxChainIndex() *fxChainIndex {
@@ -238,11 +244,18 @@ func newFxChainIndex() *fxChainIndex {
 func (ci *fxChainIndex) add(b dsmr.Block) { ci.blocks[b.GetID()] = dsmr.NewValidityWindowBlock(b) }
 
 func (ci *fxChainIndex) GetExecutionBlock(_ context.Context, id ids.ID) (validitywindow.ExecutionBlock[fxItem], error) {
+	ci.lookups++
+	if ci.maxLookups > 0 && ci.lookups > ci.maxLookups {
+		ci.cycled = true
+		return nil, errFxIndexCycle
+	}
 	if b, ok := ci.blocks[id]; ok {
 		return b, nil
 	}
 	return nil, database.ErrNotFound
 }
+
+var errFxIndexCycle = errors.New("harness chain index: lookup budget of one call exhausted (cyclic ancestry)")
 
 // ---- owned p2p transport ------------------------------------------------------------------
 //
